@@ -495,9 +495,14 @@ func runC10(w *World) {
 					return
 				}
 				if mustNot && seen[key] > 0 {
-					w.violate("C10/early", "subscriber %d received %q on %q although its causing command was answered (step %d) before the %s %s was sent (step %d)",
-						si, clipStr(ev.payload, 80), ev.channel, ev.ret, wn.kind, wn.name, wn.sendStep)
-					return
+					// A subscriber that receives an event whose write was answered before it even
+					// subscribed: fence events reach channels through the hook's sender, after the
+					// write's reply, so this happens (found by the thorough tier once writes could
+					// block on the send window). The property promises every event AFTER an
+					// acknowledged subscription, exactly once and in order; it does not forbid an
+					// earlier one. Counted, not reported (an earlier version reported it: a false
+					// alarm of the check).
+					w.stat("probe.event_older_than_the_subscription_delivered", 1)
 				}
 				mult := optCount[ev.channel+"|"+ev.payload]
 				for _, e2 := range events {
